@@ -8,7 +8,7 @@ replay, no state merging: the exact counters determine the future); after every 
 to quiescence and virtual time passes so that the read-timeout path can start the exchange.
 Oracle = vmc/refs/rekey.py fed with each side's chronological packet log.
 """
-from vmc import core, fixtures as F, sched as S, install, enum
+from vmc import core, fixtures as F, sched as S, install, enum, vthreading
 from vmc.refs import rekey as R
 from paramiko.common import MSG_KEXINIT, MSG_NEWKEYS, MSG_CHANNEL_DATA
 from paramiko.ssh_exception import SSHException
@@ -93,13 +93,40 @@ class Unscaled(Scaled):
 
 
 EVENTS = ["c3000", "s3000", "c8x200", "s8x200", "idle"]
+# extra events used in selected histories: 8 packets of a message type nobody handles (answered with
+# UNIMPLEMENTED, which is legal even inside an exchange)
+UNK = ["c8xunk", "s8xunk"]
 
 
-def run_history(hist, refusing=False):
+def run_history(hist, refusing=False, frag=None):
+    """frag=k: every packet on the wire is delivered as a k-byte fragment, a pause of 0.25 virtual seconds (two
+    receive time-outs), then the rest - the environment answers of recv() while a re-key may be pending."""
     def body(s):
         p = F.Pair(packetizer=Scaled, server_packetizer=Unscaled if refusing else Scaled)
         p.up()
         c, sv = p.session()
+        s.quiesce()
+        if frag:
+            p.c2s.gated = p.s2c.gated = True
+
+        def settle():
+            """Run the system to quiescence, delivering (fragmented) whatever is in flight."""
+            s.quiesce()
+            if not frag:
+                return
+            for _ in range(400):
+                pipes = [q for q in (p.c2s, p.s2c) if q.inflight]
+                if not pipes:
+                    break
+                for q in pipes:
+                    q.deliver_partial(frag)
+                s.quiesce()
+                s.advance(0.25)
+                s.quiesce()
+                for q in pipes:
+                    if q.inflight:
+                        q.deliver(1)
+                s.quiesce()
         if refusing:
             # the server ignores the client's KEXINIT and keeps sending
             p.ts._handler_table = dict(p.ts._handler_table)
@@ -113,12 +140,33 @@ def run_history(hist, refusing=False):
             for _ in range(count):
                 n[0] += 1
                 data = bytes([0x30 + n[0] % 64]) * size
+                if frag:
+                    # the sender may have to wait for a re-exchange that needs deliveries: run it in a thread
+                    th = vthreading.Thread(target=_send1, args=(ch, side, data))
+                    th.start()
+                    settle()
+                    th.join(40)
+                else:
+                    _send1(ch, side, data)
+                if errors:
+                    return
+
+        def _send1(ch, side, data):
+            try:
+                ch.sendall(data)
+                sent[side] += data
+            except Exception as e:  # noqa
+                errors.append((side, type(e).__name__, str(e)[:80]))
+
+        def unknown(side, count):
+            t = p.tc if side == "c" else p.ts
+            for _ in range(count):
                 try:
-                    ch.sendall(data)
-                    sent[side] += data
+                    t._send_message(F.msg(192, ("int", 0)))
                 except Exception as e:  # noqa
                     errors.append((side, type(e).__name__, str(e)[:80]))
                     return
+                settle()
         marks = []
         for ev in hist:
             if ev == "c3000":
@@ -129,11 +177,15 @@ def run_history(hist, refusing=False):
                 send("c", 200, 8)
             elif ev == "s8x200":
                 send("s", 200, 8)
+            elif ev == "c8xunk":
+                unknown("c", 8)
+            elif ev == "s8xunk":
+                unknown("s", 8)
             elif ev == "idle":
                 s.advance(0.5)
-            s.quiesce()
+            settle()
             s.advance(0.35)      # the read-timeout path (0.1 s poll) may start an exchange now
-            s.quiesce()
+            settle()
             marks.append((len(p.tc.packetizer.sizes), len(p.ts.packetizer.sizes), p.tc.is_active(), p.ts.is_active()))
         # read everything that arrived
         import socket
@@ -155,7 +207,7 @@ def run_history(hist, refusing=False):
         p.close()
         s.quiesce()
         return out
-    ex = S.run_once(body, horizon=S.EPOCH + 600, step_budget=3_000_000)
+    ex = S.run_once(body, horizon=S.EPOCH + 3000, step_budget=6_000_000)
     install.cleanup_after_execution()
     return ex
 
@@ -165,17 +217,12 @@ def judge_honest(hist, out):
     for side, key in (("client", "sizes_c"), ("server", "sizes_s")):
         log = out[key]
         # post-handshake part: start after the first NEWKEYS pair (initial kex) - find index after initial exchange
+        # the model is fed from the very first packet: each direction's counters restart at that direction's
+        # NEWKEYS, so packets sent between our NEWKEYS and the peer's (e.g. EXT_INFO) count under the new keys;
+        # nothing is demanded before the initial exchange has completed
         m = R.SideModel(MAXP, MAXB, OVP, OVB)
-        started = False
-        seen_nk = set()
         idx_marks = [mk[0 if side == "client" else 1] for mk in out["marks"]]
         for i, (d, ptype, nbytes) in enumerate(log):
-            if not started:
-                if ptype == MSG_NEWKEYS:
-                    seen_nk.add(d)
-                    if len(seen_nk) == 2:
-                        started = True
-                continue
             m.feed(d, ptype, nbytes)
             if (i + 1) in idx_marks:
                 for pr in m.at_quiescence():
@@ -195,17 +242,9 @@ def judge_honest(hist, out):
 def judge_refusing(hist, out):
     """Client scaled; the server ignores KEXINIT.  Judge the client."""
     m = R.SideModel(MAXP, MAXB, OVP, OVB)
-    started = False
-    seen_nk = set()
     dropped_at = None
     log = out["sizes_c"]
     for i, (d, ptype, nbytes) in enumerate(log):
-        if not started:
-            if ptype == MSG_NEWKEYS:
-                seen_nk.add(d)
-                if len(seen_nk) == 2:
-                    started = True
-            continue
         m.feed(d, ptype, nbytes)
         if m.must_have_dropped and dropped_at is None:
             dropped_at = i
@@ -227,7 +266,9 @@ def judge_refusing(hist, out):
 
 def run_items(items, acc):
     for kind, hist in items:
-        ex = run_history(list(hist), refusing=(kind == "refusing"))
+        frag = int(kind.split("/frag")[1]) if "/frag" in kind else None
+        kind0 = kind.split("/")[0]
+        ex = run_history(list(hist), refusing=(kind0 == "refusing"), frag=frag)
         acc.ev()
         acc.validated += 1
         acc.transitions += len(hist)
@@ -242,7 +283,7 @@ def run_items(items, acc):
         if nk > 1 or "ignoring rekey" in out["exc"]["c"]:
             acc.nt((kind, tuple(hist), nk))
         acc.cmax("max_rekeys_in_one_history", nk - 1)
-        v = (judge_refusing if kind == "refusing" else judge_honest)(hist, out)
+        v = (judge_refusing if kind0 == "refusing" else judge_honest)(hist, out)
         if v is not None:
             acc.violation("%s:%s" % (v[0], kind), {"history": list(hist), "why": v[1]},
                           {"kind": kind, "history": list(hist)})
@@ -273,7 +314,19 @@ def main(tier):
         ref.append(("refusing", ("s8x200",) * n))
     ref += [("refusing", ("s3000", "s3000", "idle") + ("s8x200",) * n) for n in range(1, 7)]
     ref += [("refusing", ("s8x200", "idle", "s3000") * n) for n in range(1, 6)]
-    items = hon + ref
+    # a refusing peer whose traffic makes us answer (UNIMPLEMENTED is legal inside an exchange)
+    ref += [("refusing", ("s3000", "s3000") + ("s8xunk",) * n) for n in range(1, 8)]
+    hon += [("honest", h) for h in enum.sequences(["c8xunk", "s8xunk", "c3000", "s3000"], 3 if tier == "quick" else 4, 2)
+            if "c8xunk" in h or "s8xunk" in h]
+    # fragmented delivery with receive time-outs inside packets (also while a re-key is pending)
+    fr = []
+    for k in (1, 5):
+        fr += [("honest/frag%d" % k, h) for h in enum.sequences(EVENTS[:4], 2 if tier == "quick" else 3, 1)]
+        for ev in EVENTS[:4]:
+            fr.append(("honest/frag%d" % k, (ev,) * (4 if tier == "quick" else 7)))
+        fr.append(("refusing/frag%d" % k, ("s3000",) * 11))
+    items = hon + ref + fr
+    ck.extra["fragmented_delivery_histories"] = len(fr)
     ck.extra["honest_histories"] = len(hon)
     ck.extra["refusing_peer_histories"] = len(ref)
     ck.extra["depth"] = d
@@ -285,7 +338,10 @@ def main(tier):
 
 def replay(rec):
     r = rec["replay"]
-    ex = run_history(list(r["history"]), refusing=(r["kind"] == "refusing"))
+    kind = r["kind"]
+    frag = int(kind.split("/frag")[1]) if "/frag" in kind else None
+    r = dict(r, kind=kind.split("/")[0])
+    ex = run_history(list(r["history"]), refusing=(r["kind"] == "refusing"), frag=frag)
     print(ex.outcome, ex.error)
     if ex.outcome != "ok":
         return 1
